@@ -8,9 +8,9 @@ Anchors (all under `liquid/`), mirrored **as written**:
 * `context.py` `extend(namespace)`: `if scope.size() > context_depth_limit: raise ContextDepthError`;
   `scope.push(namespace)`; body; `finally: scope.pop()`.  `loop(namespace, forloop)`: `loops.append(forloop)`,
   `extend`, body, `loops.pop()`.  Here the pushed namespaces and the loop stack are **part of the state**
-  (`St.pushed`, innermost first, and `St.loops`, innermost first) and are pushed / popped literally; only the
-  *size* used by the depth test travels downwards (`Frame.sz`), see `LiquidVerif.C14.scope_balanced` and
-  `sz_tracks_pushed`.
+  (`St.pushed`, innermost first, and `St.loops`, innermost first) and are pushed / popped literally
+  (`LiquidVerif.C14.scope_balanced` is the theorem that they come back); only the *size* used by the depth test
+  travels downwards (`Frame.sz` = `scope.size()`).
 * `context.py` `assign`: `self.locals[key] = val` — whatever is pushed.  `increment` / `decrement` on `counters`.
 * `context.py` `get(path)`: root looked up in the chain (`KeyError` → undefined), every further segment through
   `get_item`; `KeyError`/`TypeError`/`IndexError` → `env.undefined(...)` at once.
@@ -456,6 +456,24 @@ abbrev Res := Except Err (St × String)
 /-- `self.counters.get(name, 0)` -/
 def counterGet (cs : List (String × Int)) (n : String) : Int := (dictGet cs n).getD 0
 
+/-- `finally: self.scope.pop()` on the way out of `extend` (an error propagates) -/
+def popRes (r : Res) : Res :=
+  match r with
+  | .error x => .error x
+  | .ok (st, o) => .ok ({ st with pushed := st.pushed.tail }, o)
+
+/-- … and `self.loops.pop()` on the way out of `loop` -/
+def popLoopRes (r : Res) : Res :=
+  match r with
+  | .error x => .error x
+  | .ok (st, o) => .ok ({ st with pushed := st.pushed.tail, loops := st.loops.tail }, o)
+
+/-- a copied context is thrown away after use: the caller's state `st` is what it was -/
+def keepRes (st : St) (r : Res) : Res :=
+  match r with
+  | .error x => .error x
+  | .ok (_, o) => .ok (st, o)
+
 mutual
 /-- `Node.render(context, buffer)` -/
 def render (E : Env) (G : Frame) (st : St) : Node → Res
@@ -493,17 +511,13 @@ def render (E : Env) (G : Frame) (st : St) : Node → Res
        -- `context.loop`: loops.append(forloop); scope.push({"forloop": forloop, var: None})
        let st1 := { st with loops := forloopDrop label items.length 0 parent :: st.loops,
                             pushed := dictSet [("forloop", forloopDrop label items.length 0 parent)] var .nil :: st.pushed }
-       match iterFor E { G with sz := G.sz + 1 } st1 var label items.length parent 0 items body with
-       | .error x => .error x
-       | .ok (st2, o) => .ok ({ st2 with pushed := st2.pushed.tail, loops := st2.loops.tail }, o))
+       popLoopRes (iterFor E { G with sz := G.sz + 1 } st1 var label items.length parent 0 items body))
   | .withB args body =>
     (match evalArgs E G st args with
      | .error x => .error x
      | .ok ns =>
        if _h : G.sz > E.depth then .error .contextDepth else
-       match renderList E { G with sz := G.sz + 1 } { st with pushed := dictOf ns :: st.pushed } body with
-       | .error x => .error x
-       | .ok (st1, o) => .ok ({ st1 with pushed := st1.pushed.tail }, o))
+       popRes (renderList E { G with sz := G.sz + 1 } { st with pushed := dictOf ns :: st.pushed } body))
   | .incr n =>
     let v := counterGet st.counters n
     .ok ({ st with counters := dictSet st.counters n (v + 1) }, toString v)
@@ -521,8 +535,8 @@ def render (E : Env) (G : Frame) (st : St) : Node → Res
          if _h : G.sz > E.depth then .error .contextDepth else
          let G1 := { G with sz := G.sz + 1 }
          let st1 := { st with pushed := dictOf ns :: st.pushed }
-         let r : Res :=
-           match bind with
+         popRes
+           (match bind with
            | none => renderPartial E G1 st1 body
            | some (e, alias) =>
              match eval E G1 st1 e with
@@ -533,10 +547,7 @@ def render (E : Env) (G : Frame) (st : St) : Node → Res
                match arrayLike v with
                | some items => iterInc E G1 st1 (bindKey name alias) items body
                | none =>
-                 renderPartial E G1 { st1 with pushed := dictSet (dictOf ns) (bindKey name alias) v :: st.pushed } body
-         match r with
-         | .error x => .error x
-         | .ok (st2, o) => .ok ({ st2 with pushed := st2.pushed.tail }, o))
+                 renderPartial E G1 { st1 with pushed := dictSet (dictOf ns) (bindKey name alias) v :: st.pushed } body))
   | .render name bind args =>
     (match lookupT E.templates name with
      | none => .error .notFound
@@ -545,8 +556,9 @@ def render (E : Env) (G : Frame) (st : St) : Node → Res
        | .error x => .error x
        | .ok ns =>
          if _h : G.copyDepth > E.depth then .error .contextDepth else
-         let r : Res :=
-           match bind with
+         -- the copied context is thrown away: the caller's state is what it was
+         keepRes st
+           (match bind with
            | none => renderPartial E (G.copied (dictOf ns)) St.fresh body
            | some (loop, e, alias) =>
              match eval E G st e with
@@ -556,11 +568,7 @@ def render (E : Env) (G : Frame) (st : St) : Node → Res
                match (if loop then arrayLike v else none) with
                | some items =>
                  iterRen E (G.copied (dictOf ns)) St.fresh (bindKey name alias) items.length (dictOf ns) G.globals 0 items body
-               | none => renderPartial E (G.copied (dictSet (dictOf ns) (bindKey name alias) v)) St.fresh body
-         -- the copied context is thrown away: the caller's state is what it was
-         match r with
-         | .error x => .error x
-         | .ok (_, o) => .ok (st, o))
+               | none => renderPartial E (G.copied (dictSet (dictOf ns) (bindKey name alias) v)) St.fresh body))
   | .macroDef name params body =>
     .ok ({ st with macros := dictSet st.macros name { params := dictOf params, body := body } }, "")
   | .call name pos kw =>
@@ -571,9 +579,7 @@ def render (E : Env) (G : Frame) (st : St) : Node → Res
        | .error x => .error x
        | .ok ns =>
          if _h : G.copyDepth > E.depth then .error .contextDepth else
-         match renderList E (G.copied ns) St.fresh m.body with
-         | .error x => .error x
-         | .ok (_, o) => .ok (st, o))
+         keepRes st (renderList E (G.copied ns) St.fresh m.body))
 termination_by n => (E.depth + 2 - G.copyDepth, E.depth + 2 - G.sz, sizeOf n, 0)
 decreasing_by all_goals (simp_wf; simp only [Prod.lex_def, Frame.copied, true_and]; omega)
 
@@ -593,9 +599,7 @@ decreasing_by all_goals (simp_wf; simp only [Prod.lex_def, true_and]; omega)
 /-- `template.render_with_context(context, buffer, partial=True)`: `extend({"partial": True})`, then the nodes -/
 def renderPartial (E : Env) (G : Frame) (st : St) (body : List Node) : Res :=
   if _h : G.sz > E.depth then .error .contextDepth else
-  match renderList E { G with sz := G.sz + 1 } { st with pushed := [("partial", .bool true)] :: st.pushed } body with
-  | .error x => .error x
-  | .ok (st1, o) => .ok ({ st1 with pushed := st1.pushed.tail }, o)
+  popRes (renderList E { G with sz := G.sz + 1 } { st with pushed := [("partial", .bool true)] :: st.pushed } body)
 termination_by (E.depth + 2 - G.copyDepth, E.depth + 2 - G.sz, sizeOf body + 1, 0)
 decreasing_by all_goals (simp_wf; simp only [Prod.lex_def, true_and]; omega)
 
